@@ -237,6 +237,66 @@ def shared_process_task(task):
     return None, part
 
 
+def repeat_task(task):
+    """The same seeded chain three times in one process on shallow data with a large fixed concentration and frequent
+    subtree updates (a dozen clones, subtrees cut out and grafted back hundreds of times): identical traces.  Anything
+    that iterates over an unordered container whose order is not a function of the seed shows up here."""
+    import contextlib
+    import io
+    from vlib import gen
+    from vlib.harness import Partial, describe_exception
+    import phyclone.run as prun
+    from phyclone.data.pyclone import load_data
+    from phyclone.tree import Tree
+
+    part = Partial()
+    tmp = tempfile.mkdtemp(prefix="verif_c18r_")
+    try:
+        rng = np.random.default_rng([task["seed"], task["shard"], 1820])
+        rows, _samples = inputs.make_table(rng, task["n_mut"], 2, junk_from=0)
+        in_file = os.path.join(tmp, "in.tsv")
+        inputs.write_table(rows, in_file)
+        with contextlib.redirect_stdout(io.StringIO()):
+            data, smp = load_data(in_file, np.random.default_rng(0), 1e-4, 0.4, False, density="binomial", grid_size=11,
+                                  outlier_prob=task["outlier_prob"], precision=400)
+        runs = []
+        most = 0
+        for _rep in range(3):
+            g = np.random.default_rng(task["run_seed"])
+            with contextlib.redirect_stdout(io.StringIO()):
+                r = prun.run_phyclone_chain(1, False, task["alpha"], data, float("inf"), task["iters"], 8, 1, 1,
+                                            task["outlier_prob"], 1000, task["proposal"], 0.5, g, smp, 1, 0, 0.7)
+            seq = []
+            for e in r["trace"]:
+                t = Tree.from_dict(e["tree"])
+                most = max(most, len(t.nodes))
+                seq.append((int(e["iter"]), float(e["alpha"]).hex(), float(e["log_p_one"]).hex(), gen.key_str(gen.tree_key(t))))
+            runs.append(seq)
+            part.count("evaluations")
+            part.count("repeated_many_clone_chains")
+        part.maxi("most_clones_in_a_repeated_chain", most)
+        part.see("repeat|%s|%d|%s" % (task["proposal"], task["n_mut"], task["alpha"]))
+        for other in runs[1:]:
+            if other != runs[0]:
+                i = next((j for j, (x, y) in enumerate(zip(other, runs[0])) if x != y), None)
+                part.violation("seeded chain is not reproducible: two runs of the same seeded chain in one process differ "
+                               "(many clones, frequent subtree updates)",
+                               {"task": task, "first_differing_entry": i, "a": runs[0][i] if i is not None else None,
+                                "b": other[i] if i is not None else None, "most_clones": most})
+                break
+        part.sample({"task": task, "entries": len(runs[0]), "most_clones": most}, limit=1)
+    except Exception as e:
+        et, where, msg = describe_exception(e)
+        if where == "outside-repo":
+            import traceback
+            part.inconc("harness error: " + traceback.format_exc()[-700:])
+        else:
+            part.count("repeat_runs_failed_owned_by_C19")
+    finally:
+        shutil.rmtree(tmp, ignore_errors=True)
+    return None, part
+
+
 def hashseed_task(task):
     """The same seeded chain on string-named synthetic data in child interpreters with different PYTHONHASHSEED."""
     from vlib.harness import Partial
@@ -275,7 +335,7 @@ def hashseed_task(task):
 
 
 def dispatch(task):
-    return {"cli": run_task, "hashseed": hashseed_task, "inproc": inproc_task, "shared": shared_process_task}[task["kind"]](task)
+    return {"cli": run_task, "hashseed": hashseed_task, "inproc": inproc_task, "shared": shared_process_task, "repeat": repeat_task}[task["kind"]](task)
 
 
 def environments(chains, quick):
@@ -309,7 +369,7 @@ def run(ctx):
                 "and rotating chain completion, a failpoint perturbing every clock reading on grids 300 / 501); per chain exact equality of (iter, alpha, log_p_one bits, tree key, "
                 "labels); plus in-process pairs of the same seeded chain under different ambient random state (numpy global "
                 "RandomState, random module) with cold caches, over small configurations that visit rare branches; "
-                "chains of one run executed one after another in one process in several orders (a pool worker serving two chains); run seeds include 0 and 2^32+5; distinct = (configuration, environment)")
+                "the same seeded chain three times in one process on 12-16 shallow mutations with subtree updates (a dozen clones); chains of one run executed one after another in one process in several orders (a pool worker serving two chains); run seeds include 0 and 2^32+5; distinct = (configuration, environment)")
     ctx.assumptions = ["`time` entries are excluded", "same machine, same library versions for all runs of a comparison"]
     cfgs = [
         {"id": 0, "proposal": "semi-adapted", "outlier_prob": 0.1, "clustered": False, "chains": 2, "n_mut": 5, "iters": 6,
@@ -383,7 +443,10 @@ def run(ctx):
     stasks = [{"kind": "shared", "seed": ctx.seed, "shard": i, "n_mut": [6, 7, 5][i % 3], "grid": [101, 11][i % 2], "iters": 60,
                "proposal": ["semi-adapted", "fully-adapted", "bootstrap"][i % 3], "run_seed": 31 + i + ctx.seed}
               for i in range(4 if quick else 24)]
-    all_results = ctx.map("checks.c18", "dispatch", tasks + htasks + itasks + stasks, timeout=2400)
+    rtasks = [{"kind": "repeat", "seed": ctx.seed, "shard": i, "n_mut": [14, 12, 16][i % 3], "alpha": [1000.0, 100.0][i % 2],
+               "iters": 250, "proposal": ["semi-adapted", "fully-adapted", "bootstrap"][i % 3], "outlier_prob": [0.0, 0.0, 1e-3][i % 3],
+               "run_seed": 1 + i + ctx.seed} for i in range(6 if quick else 32)]
+    all_results = ctx.map("checks.c18", "dispatch", tasks + htasks + itasks + stasks + rtasks, timeout=2400)
     results = all_results[: len(tasks)]
     by_cfg = {}
     for t, r in zip(tasks, results):
@@ -427,6 +490,8 @@ def run(ctx):
                     break
         ctx.sample({"cfg": cfg, "environments": [e["name"] for e, _ in runs],
                     "completion_orders": sorted(list(o) for o in orders), "entries_per_chain": len(next(iter(ref["fp"].values())))})
+    if ctx.counters.get("repeated_many_clone_chains", 0) < 12:
+        ctx.inconc("too few repeated many-clone chains")
     if ctx.counters.get("chains_run_in_a_shared_process", 0) < 20:
         ctx.inconc("too few chains run in a shared process")
     if ctx.counters.get("hashseed_comparisons", 0) < 6:
